@@ -71,6 +71,8 @@ CORPUS = [
     dict(curated='no', last_template_empty=True, raw=False),            # n_clusters vs n_templates (fix-c08 / fix-c09)
     dict(curated='no', last_template_empty=True, raw=True, factor=1),   # int factor + raw data (7bdfb3a)
     dict(curated='same_file', last_template_empty=True),
+    dict(curated='no', other_template_empty='first', n_templates=4, raw=False), dict(curated='no', other_template_empty='middle', n_templates=4, raw=True),
+    dict(curated='ops', other_template_empty='middle', n_templates=3, last_template_empty=True, label='probe00'),
     dict(curated='ops', big_ids=True, n_samples_wf=2, n_channels=3, n_spikes=9, raw=False, cluster_probes=False, cluster_shanks=False),
     dict(n_channels=13, raw=False, curated='no'), dict(n_channels=14, raw=True, curated='ops', label='probe00'),
     dict(n_channels=12, raw=False),
@@ -387,7 +389,7 @@ def dist(case, obs):
     else:
         out = ['outcome=' + obs[1]['outcome'] + ((':' + obs[1]['info'].split(':')[0]) if obs[1]['outcome'] == 'crash' else '')]
     for k in ('raw', 'features', 'curated', 'probes', 'vec2d', 'label', 'factor', 'temp_wh', 'kslabel', 'params_py',
-              'last_template_empty', 'target', 'id_dtype', 'clu_dtype', 'cm_dtype', 'time_dtype', 'old_subset',
+              'last_template_empty', 'other_template_empty', 'target', 'id_dtype', 'clu_dtype', 'cm_dtype', 'time_dtype', 'old_subset',
               'cluster_probes', 'drift', 'labels', 'big_ids'):
         out.append('%s=%s' % (k, o[k]))
     out.append('n_channels=%s' % ('<12' if o['n_channels'] < 12 else '12' if o['n_channels'] == 12 else '>12'))
